@@ -16,16 +16,16 @@ pub fn gen_case(seed: u64, index: u64) -> Case {
     let kind = rng.below(100);
     let (ops, enumerate, shadow) = if kind < 25 {
         // short history, every single allocation fault enumerated
-        let len = 3 + rng.below(10) as usize;
+        let len = 3 + rng.below(if cfg!(miri) { 5 } else { 10 }) as usize;
         let sw = if rng.chance(1, 2) { sw.ints_only() } else { sw };
         (gen::gen_history(&mut rng, &sw, len, 0), true, false)
     } else if kind < 45 {
         // fault-free history with the shadow differential (hidden-state independence)
-        let len = 4 + rng.below(40) as usize;
+        let len = 4 + rng.below(if cfg!(miri) { 10 } else { 40 }) as usize;
         (gen::gen_history(&mut rng, &sw, len, 0), false, true)
     } else {
         // random faults inside a longer history; recovery is judged by the steps that follow
-        let len = 4 + rng.below(60) as usize;
+        let len = 4 + rng.below(if cfg!(miri) { 12 } else { 60 }) as usize;
         let rate = [3u64, 6, 10, 20][rng.below(4) as usize];
         let shadow = rng.chance(1, 3);
         (gen::gen_history(&mut rng, &sw, len, rate), false, shadow)
@@ -84,7 +84,7 @@ pub fn run_case(case: &Case, stats: &mut Stats) -> CaseResult {
     if case.enumerate {
         // exhaustive single-fault coverage of this history
         for (k, &events) in o1.fallible.iter().enumerate() {
-            for j in 1..=events.min(40) {
+            for j in 1..=events.min(if cfg!(miri) { 2 } else { 40 }) {
                 let mut c = case.clone();
                 c.enumerate = false;
                 c.ops[k].fault = Some(Fault { kind: FaultKind::Alloc, k: j });
